@@ -45,6 +45,11 @@ def run(ctx):
     }
     run_zone(ctx, m, CONTRACTS, ZONE_KEYS, rules)
     rules["FIND-next"] = find_next(ctx, m)
+    # traps: integer division/remainder guards (rule shared with C04)
+    from rules import C04
+    for r4 in C04.run(ctx):
+        if r4.rid in ("DIV-guard", "X-novalue"):
+            rules[r4.rid] = r4
     return list(rules.values())
 
 
